@@ -427,3 +427,302 @@ Proof.
     destruct Ed1 as [Ed1 Ed2]. rewrite Ed1 in P1. rewrite Ed2 in P2. unfold b2n in *.
     clear - A B P1 P2. lia.
 Qed.
+
+(** * value-moving calls on handles *)
+Lemma step_observe s h : Inv s -> Inv (fst (step s (Observe h))).
+Proof.
+  intros H0. apply Inv_reset in H0. unfold step. fold (reset s). set (s1 := reset s) in *. clearbody s1.
+  destruct (getH h s1) as [x|]; [|exact H0]. destruct (h_live x); exact H0.
+Qed.
+
+Lemma step_try_send s h : Inv s -> Inv (fst (step s (TrySend h))).
+Proof.
+  intros H0. apply Inv_reset in H0. unfold step. fold (reset s). set (s1 := reset s) in *. clearbody s1.
+  destruct (getH h s1) as [x|]; [|exact H0].
+  destruct (h_live x); cbn [negb]; [|exact H0].
+  destruct (h_tx x); cbn [negb]; [|exact H0].
+  destruct (InvH_fresh s1 H0) as [Hf Ev]. unfold fresh in *. cbn [fst snd] in *.
+  set (s2 := with_next (next s1 + 1) s1) in *.
+  destruct (h_closed x).
+  - cbn [ret fst]. apply InvH_give_back. exact Hf.
+  - pose proof (try_send_core_spec (next s1) s2 Hf) as Hs.
+    destruct (try_send_core (next s1) s2) as [s3 [| |]]; cbn [ret fst].
+    + apply Hs.
+    + destruct Hs as [-> _]. apply InvH_give_back. exact Hf.
+    + destruct Hs as [-> _]. apply InvH_give_back. exact Hf.
+Qed.
+
+Lemma step_send s h : Inv s -> Inv (fst (step s (Send h))).
+Proof.
+  intros H0. apply Inv_reset in H0. unfold step. fold (reset s). set (s1 := reset s) in *. clearbody s1.
+  destruct (getH h s1) as [x|]; [|exact H0].
+  destruct (h_live x); cbn [negb]; [|exact H0].
+  destruct (negb (h_tx x) || h_async x); [exact H0|].
+  destruct (negb (rc s1 =? 0) && is_full s1); [exact H0|].
+  destruct (InvH_fresh s1 H0) as [Hf Ev]. unfold fresh in *. cbn [fst snd] in *.
+  set (s2 := with_next (next s1 + 1) s1) in *.
+  destruct (h_closed x).
+  - cbn [ret fst]. apply InvH_destroy. exact Hf.
+  - pose proof (try_send_core_spec (next s1) s2 Hf) as Hs.
+    destruct (try_send_core (next s1) s2) as [s3 [| |]]; cbn [ret fst].
+    + apply Hs.
+    + destruct Hs as [-> _]. apply InvH_destroy. exact Hf.
+    + destruct Hs as [-> _]. apply InvH_destroy. exact Hf.
+Qed.
+
+Lemma step_try_recv s h : Inv s -> Inv (fst (step s (TryRecv h))).
+Proof.
+  intros H0. apply Inv_reset in H0. unfold step. fold (reset s). set (s1 := reset s) in *. clearbody s1.
+  destruct (getH h s1) as [x|]; [|exact H0].
+  destruct (h_live x); cbn [negb]; [|exact H0].
+  destruct (h_tx x); [exact H0|].
+  destruct (h_closed x); [exact H0|].
+  pose proof (try_recv_core_spec [] s1 H0) as Hs.
+  destruct (try_recv_core s1) as [s3 [v| |]]; cbn [ret fst].
+  - apply Hs.
+  - destruct Hs as [-> _]. exact H0.
+  - destruct Hs as [-> _]. exact H0.
+Qed.
+
+Lemma step_recv s h : Inv s -> Inv (fst (step s (Recv h))).
+Proof.
+  intros H0. apply Inv_reset in H0. unfold step. fold (reset s). set (s1 := reset s) in *. clearbody s1.
+  destruct (getH h s1) as [x|]; [|exact H0].
+  destruct (h_live x); cbn [negb]; [|exact H0].
+  destruct (h_tx x || h_async x); [exact H0|].
+  match goal with |- context [if ?c then ret s1 RWouldBlock else _] => destruct c end; [exact H0|].
+  destruct (h_closed x); [exact H0|].
+  pose proof (try_recv_core_spec [] s1 H0) as Hs.
+  destruct (try_recv_core s1) as [s3 [v| |]]; cbn [ret fst].
+  - apply Hs.
+  - destruct Hs as [-> _]. exact H0.
+  - destruct Hs as [-> _]. exact H0.
+Qed.
+
+Lemma step_recv_timeout s h : Inv s -> Inv (fst (step s (RecvTimeout h))).
+Proof.
+  intros H0. apply Inv_reset in H0. unfold step. fold (reset s). set (s1 := reset s) in *. clearbody s1.
+  destruct (getH h s1) as [x|]; [|exact H0].
+  destruct (h_live x); cbn [negb]; [|exact H0].
+  destruct (h_tx x || h_async x); [exact H0|].
+  destruct (h_closed x && fx03 (fx s1)) eqn:Ec; [exact H0|].
+  assert (Ht : InvH [] (taint set_t03 (h_closed x) s1)).
+  { apply InvH_taint; [exact H0 | apply tle_set_t03 |].
+    intros E. apply ok_set_t03; [apply (w_taint s1 (proj1 (proj2 H0)))|]. rewrite E in Ec. exact Ec. }
+  set (s2 := taint set_t03 (h_closed x) s1) in *.
+  pose proof (try_recv_core_spec [] s2 Ht) as Hs.
+  destruct (try_recv_core s2) as [s3 [v| |]]; cbn [ret fst].
+  - apply Hs.
+  - destruct Hs as [-> _]. exact Ht.
+  - destruct Hs as [-> _]. exact Ht.
+Qed.
+
+(** * futures *)
+Lemma pw_r_val x : pw_r x = f_recv x && f_reg x && is_waiting (f_state x). Proof. reflexivity. Qed.
+Lemma pi_r_val x : pi_r x = f_recv x && f_reg x && is_success (f_state x). Proof. reflexivity. Qed.
+Lemma pw_s_val x : pw_s x = negb (f_recv x) && f_reg x && is_waiting (f_state x). Proof. reflexivity. Qed.
+Lemma pi_s_val x : pi_s x = negb (f_recv x) && f_reg x && is_success (f_state x). Proof. reflexivity. Qed.
+
+Lemma cnt4 f x x' s s' :
+  NoDup (akeys (fs s)) -> getF f s = Some x -> fs s' = fs (setF f x' s) ->
+  (cnt pw_r (fs s') + b2n (pw_r x) = cnt pw_r (fs s) + b2n (pw_r x'))%nat /\
+  (cnt pi_r (fs s') + b2n (pi_r x) = cnt pi_r (fs s) + b2n (pi_r x'))%nat /\
+  (cnt pw_s (fs s') + b2n (pw_s x) = cnt pw_s (fs s) + b2n (pw_s x'))%nat /\
+  (cnt pi_s (fs s') + b2n (pi_s x) = cnt pi_s (fs s) + b2n (pi_s x'))%nat.
+Proof. intros Hnd Hg ->. repeat split; apply cnt_setF; assumption. Qed.
+
+Ltac rw_bools H :=
+  repeat match goal with
+         | E : _ = true |- _ => rewrite E in H
+         | E : _ = false |- _ => rewrite E in H
+         end.
+
+Ltac ev_preds H :=
+  rewrite ?pw_r_val, ?pi_r_val, ?pw_s_val, ?pi_s_val in H;
+  cbn [f_recv f_reg f_state f_live f_done f_item f_h set_state set_reg set_done set_item set_dead] in H;
+  rw_bools H;
+  cbn [andb negb b2n is_waiting is_success] in H;
+  rewrite ?andb_false_r, ?andb_true_r in H; cbn [andb negb b2n] in H;
+  rewrite ?andb_false_r, ?andb_true_r in H; cbn [andb negb b2n] in H.
+
+Lemma InvK_intro s :
+  (t07 (tn s) = false -> sc s = N.of_nat (cnt open_tx (hs s)) /\ rc s = N.of_nat (cnt open_rx (hs s))) ->
+  (t06 (tn s) = false -> t12 (tn s) = false -> cnt pw_r (fs s) = 0%nat \/ (nq s <= cnt pi_r (fs s))%nat) ->
+  (t12 (tn s) = false -> cnt pw_s (fs s) = 0%nat \/ (ncap s <= nq s + cnt pi_s (fs s))%nat) ->
+  InvK s.
+Proof. intros A B C. constructor; assumption. Qed.
+
+(* the unlink-and-unregister part of Drop / of the closed-handle guard *)
+Definition unreg (x : fut) : fut :=
+  set_reg false (if is_waiting (f_state x) then set_state Cancelled x else x).
+
+Definition base_r (f : N) (x : fut) (s : st) : st := with_arq (unlink f (arq s)) (setF f (unreg x) s).
+Definition base_s (f : N) (x : fut) (s : st) : st := with_asq (unlink f (asq s)) (setF f (unreg x) s).
+
+Lemma unreg_fields x :
+  f_recv (unreg x) = f_recv x /\ f_h (unreg x) = f_h x /\ f_live (unreg x) = f_live x /\
+  f_item (unreg x) = f_item x /\ f_done (unreg x) = f_done x /\ f_reg (unreg x) = false.
+Proof. unfold unreg. destruct (is_waiting (f_state x)); repeat split. Qed.
+
+Lemma base_r_core hand f x s :
+  InvD hand s -> InvW s -> getF f s = Some x -> f_recv x = true ->
+  InvD hand (base_r f x s) /\ InvW (base_r f x s).
+Proof.
+  intros HD HW Hg Hrecv.
+  destruct (unreg_fields x) as (U1 & U2 & U3 & U4 & U5 & U6).
+  assert (Heq : core_eq (with_arq (unlink f (arq s)) (with_asq (asq s) (setF f (unreg x) s))) (base_r f x s))
+    by (unfold base_r; core_eq_refl).
+  split.
+  - apply (InvD_ext hand _ _ Heq). apply InvD_upd with x; [exact HD | apply (w_fnd s HW) | exact Hg |].
+    intros v. unfold cellp. rewrite U3, U4. reflexivity.
+  - apply (InvW_ext _ _ Heq). apply InvW_upd with x.
+    + exact HW.
+    + exact Hg.
+    + exact U1.
+    + exact U2.
+    + rewrite U3. auto.
+    + rewrite U6. discriminate.
+    + apply unlink_NoDup, (w_arq_nd s HW).
+    + apply (w_asq_nd s HW).
+    + intros f1 w1 Hi. apply unlink_In in Hi. destruct Hi as [Hi Hne]. left. auto.
+    + intros f1 w1 Hi. left. split; [|exact Hi]. intros ->.
+      destruct (w_asq_k s HW f w1 Hi) as [z [Hz [Hr _]]]. congruence.
+    + intros f1 Hne Hi. apply unlink_keys. auto.
+    + auto.
+    + rewrite U6. discriminate.
+    + intros _ Hi. apply unlink_keys in Hi. destruct Hi as [_ Hi]. contradiction.
+    + intros _ Hi. destruct (akeys_In _ _ Hi) as [w1 Hi1].
+      destruct (w_asq_k s HW f w1 Hi1) as [z [Hz [Hr _]]]. congruence.
+    + intros _ Hi. apply unlink_keys in Hi. destruct Hi as [_ Hi]. contradiction.
+Qed.
+
+Lemma base_s_core hand f x s :
+  InvD hand s -> InvW s -> getF f s = Some x -> f_recv x = false ->
+  InvD hand (base_s f x s) /\ InvW (base_s f x s).
+Proof.
+  intros HD HW Hg Hrecv.
+  destruct (unreg_fields x) as (U1 & U2 & U3 & U4 & U5 & U6).
+  assert (Heq : core_eq (with_arq (arq s) (with_asq (unlink f (asq s)) (setF f (unreg x) s))) (base_s f x s))
+    by (unfold base_s; core_eq_refl).
+  split.
+  - apply (InvD_ext hand _ _ Heq). apply InvD_upd with x; [exact HD | apply (w_fnd s HW) | exact Hg |].
+    intros v. unfold cellp. rewrite U3, U4. reflexivity.
+  - apply (InvW_ext _ _ Heq). apply InvW_upd with x.
+    + exact HW.
+    + exact Hg.
+    + exact U1.
+    + exact U2.
+    + rewrite U3. auto.
+    + rewrite U6. discriminate.
+    + apply (w_arq_nd s HW).
+    + apply unlink_NoDup, (w_asq_nd s HW).
+    + intros f1 w1 Hi. left. split; [|exact Hi]. intros ->.
+      destruct (w_arq_k s HW f w1 Hi) as [z [Hz Hr]]. congruence.
+    + intros f1 w1 Hi. apply unlink_In in Hi. destruct Hi as [Hi Hne]. left. auto.
+    + auto.
+    + intros f1 Hne Hi. apply unlink_keys. auto.
+    + rewrite U6. discriminate.
+    + intros _ Hi. destruct (akeys_In _ _ Hi) as [w1 Hi1].
+      destruct (w_arq_k s HW f w1 Hi1) as [z [Hz Hr]]. congruence.
+    + intros _ Hi. apply unlink_keys in Hi. destruct Hi as [_ Hi]. contradiction.
+    + intros _ Hi. destruct (akeys_In _ _ Hi) as [w1 Hi1].
+      destruct (w_arq_k s HW f w1 Hi1) as [z [Hz Hr]]. congruence.
+Qed.
+
+Lemma InvD_with_tn hand t s : InvD hand s -> InvD hand (with_tn t s).
+Proof. intros HD. destruct HD. constructor; unfold nq, ncap, tot, cells in *; st_simpl; assumption. Qed.
+
+Lemma InvW_with_tn t s : InvW s -> tle (tn s) t -> taint_ok (fx s) t -> InvW (with_tn t s).
+Proof.
+  intros HW (L1 & L2 & L3 & L4 & L5 & L6 & L7) Hok.
+  destruct HW. constructor; unfold getF, getH, any_live in *; st_simpl; try assumption.
+  intros T. apply w_arq_reg. auto.
+Qed.
+
+Definition cancel_post (f : N) (x : fut) (s s' : st) : Prop :=
+  (exists x', getF f s' = Some x' /\ f_reg x' = false /\ f_live x' = f_live x /\ f_item x' = f_item x
+              /\ f_recv x' = f_recv x /\ f_h x' = f_h x /\ f_done x' = f_done x)
+  /\ hs s' = hs s /\ q s' = q s /\ next s' = next s /\ recvd s' = recvd s /\ acc s' = acc s
+  /\ back s' = back s /\ dropped s' = dropped s /\ dk s' = dk s /\ cap s' = cap s /\ fx s' = fx s
+  /\ sc s' = sc s /\ rc s' = rc s /\ freed s' = freed s.
+
+Lemma getF_mark_bad b f s : getF f (mark_bad b s) = getF f s.
+Proof. unfold mark_bad. destruct b; reflexivity. Qed.
+
+Lemma cancel_reg_recv f x s :
+  Inv s -> getF f s = Some x -> f_reg x = true -> f_recv x = true ->
+  Inv (cancel_reg f x s) /\ cancel_post f x s (cancel_reg f x s).
+Proof.
+  intros H Hg Hreg Hrecv. destruct H as [HD [HW HK]].
+  unfold cancel_reg. rewrite Hreg, Hrecv.
+  change (setF f (set_reg false (if is_waiting (f_state x) then set_state Cancelled x else x)) s) with (setF f (unreg x) s).
+  change (with_arq (unlink f (arq (setF f (unreg x) s))) (setF f (unreg x) s)) with (base_r f x s).
+  destruct (base_r_core [] f x s HD HW Hg Hrecv) as [HDb HWb].
+  destruct (unreg_fields x) as (U1 & U2 & U3 & U4 & U5 & U6).
+  destruct (cnt4 f x (unreg x) s (base_r f x s) (w_fnd s HW) Hg eq_refl) as (C1 & C2 & C3 & C4).
+  ev_preds C1. ev_preds C2. ev_preds C3. ev_preds C4.
+  destruct HK as [K1 K2 K3]. fold (nq s) in K2, K3. fold (ncap s) in K3.
+  assert (Hpost0 : forall s', getF f s' = Some (unreg x) -> hs s' = hs s -> q s' = q s -> next s' = next s ->
+            recvd s' = recvd s -> acc s' = acc s -> back s' = back s -> dropped s' = dropped s -> dk s' = dk s ->
+            cap s' = cap s -> fx s' = fx s -> sc s' = sc s -> rc s' = rc s -> freed s' = freed s -> cancel_post f x s s').
+  { intros s' G. intros. unfold cancel_post. split; [exists (unreg x); repeat split; auto|]. repeat split; assumption. }
+  assert (Gb : getF f (base_r f x s) = Some (unreg x)).
+  { unfold base_r. change (getF f (setF f (unreg x) s) = Some (unreg x)). rewrite getF_setF, N.eqb_refl. reflexivity. }
+  destruct (is_success (f_state x)) eqn:Es; cbn [b2n] in C1, C2, C3, C4.
+  - assert (Ew : is_waiting (f_state x) = false) by (destruct (f_state x); try discriminate; reflexivity).
+    rewrite ?Ew in C1. cbn [b2n] in C1.
+    change (fx (base_r f x s)) with (fx s).
+    destruct (fx12 (fx s)) eqn:E12.
+    + change (q (base_r f x s)) with (q s).
+      destruct (q s) as [|v0 t0] eqn:Eq.
+      * split; [|apply Hpost0; auto; reflexivity].
+        split; [exact HDb|]. split; [exact HWb|]. apply InvK_intro.
+        -- exact K1.
+        -- intros _ _. right. unfold nq. change (q (base_r f x s)) with (q s). rewrite Eq. cbn [length]. clear. lia.
+        -- intros T. specialize (K3 T). change (nq (base_r f x s)) with (nq s). change (ncap (base_r f x s)) with (ncap s).
+           clear - K3 C3 C4. lia.
+      * destruct (wake_one_recv_eq (base_r f x s) HWb) as [[E Hn]|[f1 [w1 [y [Hi [Hy [Hw E]]]]]]]; rewrite E.
+        -- split; [|apply Hpost0; auto; reflexivity].
+           split; [exact HDb|]. split; [exact HWb|]. apply InvK_intro.
+           ++ exact K1.
+           ++ intros _ _. left. apply no_waiting_r; assumption.
+           ++ intros T. specialize (K3 T). change (nq (base_r f x s)) with (nq s). change (ncap (base_r f x s)) with (ncap s).
+              clear - K3 C3 C4. lia.
+        -- destruct (woken_r_core [] f1 w1 y (base_r f x s) HDb HWb Hi Hy Hw) as (HD2 & HW2 & Hry & Hrg).
+           destruct (cnt4 f1 y (set_state Success y) (base_r f x s) (woken_r f1 w1 y (base_r f x s)) (w_fnd _ HWb) Hy eq_refl) as (D1 & D2 & D3 & D4).
+           assert (Esy : is_success (f_state y) = false) by (destruct (f_state y); try discriminate; reflexivity).
+           ev_preds D1. ev_preds D2. ev_preds D3. ev_preds D4.
+           assert (Hne : f1 <> f).
+           { intros ->. rewrite Gb in Hy. inversion Hy; subst y. rewrite U6 in *.
+             apply unlink_In in Hi. destruct Hi as [_ Hi]. apply Hi. reflexivity. }
+           split.
+           ++ apply InvH_mark_bad. split; [exact HD2|]. split; [exact HW2|]. apply InvK_intro.
+              ** exact K1.
+              ** intros T1 T2. specialize (K2 T1 T2). rewrite ?(Hrg T1) in D1, D2. cbn [andb b2n] in D1, D2.
+                 change (nq (woken_r f1 w1 y (base_r f x s))) with (nq s).
+                 clear - K2 C1 C2 D1 D2. lia.
+              ** intros T. specialize (K3 T).
+                 change (nq (woken_r f1 w1 y (base_r f x s))) with (nq s). change (ncap (woken_r f1 w1 y (base_r f x s))) with (ncap s).
+                 clear - K3 C3 C4 D3 D4. lia.
+           ++ apply Hpost0; rewrite <- ?Eq; try (unfold mark_bad; destruct (negb (f_live y)); reflexivity).
+              rewrite getF_mark_bad. unfold woken_r.
+              change (getF f (setF f1 (set_state Success y) (base_r f x s)) = Some (unreg x)).
+              rewrite getF_setF. destruct (N.eqb_spec f f1); [congruence | exact Gb].
+    + (* the wake is not passed on: the F-12 event *)
+      unfold taint.
+      split; [|apply Hpost0; auto; reflexivity].
+      split; [apply InvD_with_tn; exact HDb|]. split.
+      * apply InvW_with_tn; [exact HWb | apply tle_set_t12 |].
+        apply ok_set_t12; [apply (w_taint s HW) | exact E12].
+      * apply InvK_intro.
+        -- exact K1.
+        -- cbn. discriminate.
+        -- cbn. discriminate.
+  - split; [|apply Hpost0; auto; reflexivity].
+    split; [exact HDb|]. split; [exact HWb|]. apply InvK_intro.
+    + exact K1.
+    + intros T1 T2. specialize (K2 T1 T2). change (nq (base_r f x s)) with (nq s).
+      clear - K2 C1 C2. destruct (is_waiting (f_state x)); cbn [b2n] in *; lia.
+    + intros T. specialize (K3 T). change (nq (base_r f x s)) with (nq s). change (ncap (base_r f x s)) with (ncap s).
+      clear - K3 C3 C4. lia.
+Qed.
